@@ -42,6 +42,8 @@ def main():
     ap.add_argument("--only", default="")
     a = ap.parse_args()
     dirs = sorted(p for p in (VERIF / "seeded").iterdir() if (p / "patch.diff").exists())
+    # a stored change whose precondition was removed by a later repair of /repo is kept for the record, not re-run
+    dirs = [d for d in dirs if not ((d / "meta.json").exists() and json.loads((d / "meta.json").read_text()).get("retired"))]
     if a.only:
         dirs = [d for d in dirs if d.name in a.only.split(",")]
     with ThreadPoolExecutor(a.jobs) as ex:
